@@ -117,10 +117,10 @@ def runner(rep, tier, seed, replay):
     rep.add_tlc(rc)
     if not rc.violation:
         raise ToolError("negative control failed: with only the children calling setpgid the Launch model satisfies C07")
-    nsess = 10 if tier == "quick" else 150
+    nsess = 16 if tier == "quick" else 150
     rnd = random.Random(seed)
     plans = [(rnd.randrange(1 << 30), rnd.randint(5, 25)) for _ in range(nsess)]
-    with ProcessPoolExecutor(max_workers=6) as ex:
+    with ProcessPoolExecutor(max_workers=8) as ex:
         sessions = list(ex.map(run_session, plans))
     unsettled = [e for (_, e, _) in sessions if e]
     good = [(recs, defs) for (recs, e, defs) in sessions if not e and len(recs) > 1]
